@@ -37,6 +37,16 @@ def scratch_dir(tag: str) -> str:
     return d
 
 
+def die_with_parent():
+    """No process of the harness outlives the process that forked it (PR_SET_PDEATHSIG)."""
+    try:
+        import ctypes
+
+        ctypes.CDLL(None).prctl(1, signal.SIGKILL)
+    except Exception:  # noqa: BLE001
+        pass
+
+
 def _read_all(fd, deadline):
     chunks = []
     while True:
@@ -62,6 +72,7 @@ def child_call(fn, args=(), timeout=120.0, root=None):
         code = 0
         try:
             os.close(rfd)
+            die_with_parent()
             gc.disable()
             import warnings
 
@@ -143,6 +154,7 @@ def parallel_jobs(job_fn, jobs, nworkers=None, wall_cap=None, progress=None):
         if pid == 0:
             code = 0
             try:
+                die_with_parent()
                 os.close(rfd)
                 os.close(jw)
                 for other_r, _ in workers:
